@@ -2,8 +2,9 @@
   C16 — A storage unit keeps its cache and its persister coherent.
 -/
 import SV.Misc.UnitProofs
+import SV.Misc.UnitReal
 namespace SV.Props.C16
-open SV SV.Unit
+open SV SV.Unit SV.UnitReal
 
 /-- after ANY history of Put/Get/Remove/ClearCache — with ANY cache evictions (the cacher is arbitrary) and ANY persister
     faults — the unit is coherent (its cache never serves a value different from what its persister holds) and Get / Has
@@ -22,5 +23,28 @@ theorem remove_both_layers (u : U) (k : Bytes) :
     alookup k (u.remove k false).1.cache = none ∧ alookup k (u.remove k false).1.db = none := remove_clears u k
 /-- a read never changes the persister; GetBulkFromEpoch is Get per key, so it returns precisely the found pairs -/
 theorem get_is_readonly (u : U) (k : Bytes) (fail : Bool) (keep : List Bytes) : (u.get k fail keep).1.db = u.db := get_db u k fail keep
+
+/-! ### the unit over the REAL cachers (SV.Misc.UnitReal): every cacher the factory builds is an instance of the abstract
+    cacher ("write the entry, then keep some subset"), so the statements above hold for the storage unit written exactly
+    as storageunit.go calls its cacher — over the capacity LRU, the hashicorp LRU and the FIFO sharded cache -/
+
+theorem real_cachers_satisfy_the_contract (vr : LRU.Variant) (size : Nat) :
+    (capCacher vr).Lawful ∧ simpleCacher.Lawful ∧ (fifoCacher size).Lawful ∧ (lruCacher vr).Lawful :=
+  ⟨capCacher_lawful vr, simpleCacher_lawful, fifoCacher_lawful size, lruCacher_lawful vr⟩
+theorem unit_over_size_lru (vr : LRU.Variant) (cap : Nat) (maxBytes : Int) (rops : List ROp) (k : Bytes) :
+    let u := rops.foldl RU.step (RU.init (LRU.Cap.init cap maxBytes) : RU (capCacher vr))
+    LRU.CapInv u.cache ∧ RCoherent u ∧ (u.get k false).2 = (rops.foldl rackStep (fun _ => none)) k ∧
+      u.has k = ((rops.foldl rackStep (fun _ => none)) k).isSome := capUnit_run_spec vr cap maxBytes rops k
+theorem unit_over_lru (cap : Nat) (rops : List ROp) (k : Bytes) :
+    let u := rops.foldl RU.step (RU.init (⟨cap, []⟩ : LRU.Simple) : RU simpleCacher)
+    LRU.SimpleInv u.cache ∧ RCoherent u ∧ (u.get k false).2 = (rops.foldl rackStep (fun _ => none)) k ∧
+      u.has k = ((rops.foldl rackStep (fun _ => none)) k).isSome := simpleUnit_run_spec cap rops k
+theorem unit_over_fifo (size n : Nat) (hn : 1 ≤ n) (rops : List ROp) (k : Bytes) :
+    let u := rops.foldl RU.step (RU.init (Fifo.Cache.init size n) : RU (fifoCacher size))
+    Fifo.CacheInv size u.cache ∧ RCoherent u ∧ (u.get k false).2 = (rops.foldl rackStep (fun _ => none)) k ∧
+      u.has k = ((rops.foldl rackStep (fun _ => none)) k).isSome := fifoUnit_run_spec size n hn rops k
+theorem real_unit_rejected_put_not_served {C : Cacher} (L : C.Lawful) (u : RU C) (k v : Bytes) (hi : C.Inv u.cache)
+    (h : RCoherent u) : ((u.put k v true).1.get k false).2 = alookup k u.db :=
+  realUnit_rejected_put_not_served L u k v hi h
 
 end SV.Props.C16
